@@ -67,8 +67,18 @@ func FetchEvents(c *gen.Concrete) []Event {
 
 // RunVerifyOnce runs one option setting against a concrete world and returns Call..Return events.
 func RunVerifyOnce(c *gen.Concrete, id, sub int, o map[string]any, extra Event) []Event {
+	return RunVerifyWith(c, nil, id, sub, o, extra)
+}
+
+// RunVerifyWith is RunVerifyOnce through a caller-supplied (re-used) Options value: its public fields are set for this
+// call, its unexported per-call state is whatever earlier calls left behind.
+func RunVerifyWith(c *gen.Concrete, reuse *verify.Options, id, sub int, o map[string]any, extra Event) []Event {
 	c.Getter.Reset()
 	opts := VerifyOpts(c, o)
+	if reuse != nil {
+		reuse.GetCollateral, reuse.CheckRevocations, reuse.Getter, reuse.TrustedRoots, reuse.Now = opts.GetCollateral, opts.CheckRevocations, opts.Getter, opts.TrustedRoots, opts.Now
+		opts = reuse
+	}
 	var out Outcome
 	if o["entry"] == "msg" {
 		m := MsgFromQuote(c.Q)
@@ -211,4 +221,81 @@ func IntelConcrete(w gen.World) *gen.Concrete {
 		c.Pool.AddCert(other.Root.Cert)
 	}
 	return c
+}
+
+
+// RunHistoryCase runs one history: two calls in this process over worlds that share a seed (twin / faulty) or not (other platform).
+func RunHistoryCase(cs map[string]any, id int, seed int64) Result {
+	res := Result{ID: id}
+	worlds := cs["worlds"].(map[string]any)
+	toWorld := func(m any) gen.World {
+		w := gen.World{}
+		for k, v := range m.(map[string]any) {
+			w[k] = v.(string)
+		}
+		return w
+	}
+	s1 := seed*999983 + int64(id)*2 + 1
+	built := map[string]*gen.Concrete{}
+	get := func(wid string) *gen.Concrete {
+		if c, ok := built[wid]; ok {
+			return c
+		}
+		sd := s1
+		if wid == "B" {
+			sd = s1 + 1
+		}
+		c := gen.Build(toWorld(worlds[wid]), gen.Params{Seed: sd})
+		if c.Unrealizable == "" {
+			if err := gen.SelfCheck(c); err != nil {
+				panic(fmt.Sprintf("GENERATOR SELF-CHECK FAILED history case %d world %s: %v", id, wid, err))
+			}
+		}
+		built[wid] = c
+		return c
+	}
+	var shared *verify.Options
+	if cs["shared"] == true {
+		shared = &verify.Options{}
+	}
+	for i, st := range cs["hist"].([]any) {
+		step := st.(map[string]any)
+		c := get(step["wid"].(string))
+		if c.Unrealizable != "" {
+			res.Skip = c.Unrealizable
+			return Result{ID: id, Skip: c.Unrealizable}
+		}
+		o := map[string]any{"gc": step["gc"], "cr": step["cr"], "now": "set", "entry": "msg"}
+		evs := RunVerifyWith(c, shared, id, i, o, Event{"wid": step["wid"], "shared": cs["shared"]})
+		evs[0]["input"] = cs
+		res.Events = append(res.Events, evs...)
+	}
+	return res
+}
+
+func init() {
+	Drivers["history"] = func(e Env) (*Summary, error) {
+		cases, err := readRawCases(e.Cases)
+		if err != nil {
+			return nil, err
+		}
+		idx := make([]Case, len(cases))
+		for i := range cases {
+			idx[i] = Case{ID: i}
+		}
+		rs := RunParallel(idx, e.Workers, func(c Case) Result { return RunHistoryCase(cases[c.ID], caseID(cases[c.ID], c.ID), e.Seed) })
+		n, err := WriteTrace(e.Out, rs)
+		if err != nil {
+			return nil, err
+		}
+		s := summarise("history", rs, n)
+		for _, r := range rs {
+			for _, ev := range r.Events {
+				if ev["ev"] == "Return" {
+					s.Counts["verdict:"+ev["verdict"].(string)]++
+				}
+			}
+		}
+		return s, nil
+	}
 }
